@@ -66,6 +66,9 @@ async fn recognize(stream: &mut TcpStream) -> Result<Proxy, anyhow::Error> {
 }
 
 fn recognize_http(method: &str, mut path: &str) -> Result<Proxy, anyhow::Error> {
+    if "CONNECT" != method && path.starts_with('/') {
+        bail!("not a proxy request: the request target {} names no host", path);
+    }
     if let Some(i) = path.find('?') {
         path = &path[..i];
     }
